@@ -1,5 +1,6 @@
 use vstd::prelude::*;
 verus! {
+//@include specs/std_extra.rs
 
 #[derive(Debug)]
 pub struct AnyhowError;
@@ -477,7 +478,7 @@ pub fn byte(
         let window_length = max_bytes - (1 + usize::from(window_start > 0)) * context_bytes;
         let window_end = window_start + vt_count_fwd(window_start, cs.len(), window_length, &cs);
         if window_end <= window_start {
-            return Err(vt_anyhow());
+            return Err({ let _vt_fmt_args = (&(cs.char_byte_len(window_start)),); vt_anyhow() });
         }
         let ctx_start =
             window_start.saturating_sub(vt_count_bwd(0, window_start, context_bytes, &cs));
